@@ -269,6 +269,16 @@ def gen_cases(tier, rnd, prop, budget):
                 v = G.sa_game(n, rnd, kind="int", neg_singletons=False)
                 K = [c for c in range(2 ** n) if c not in unknown_ids]
                 yield n, v, K, "sa-int:nearlyfullK"
+    # the SAME set of MANY unknown ids (all 25 non-minimal coalitions of five players, or 16–22 of them) in games of 5, 6 and 7 players,
+    # ascending within one process: in the bigger games everything with a further player, and {0..4}, is known
+    if prop in ("C03", "C01", "C02", "C08"):
+        for rep_ in range(1 if tier == "quick" else 6):
+            five = [c for c in range(3, 31) if G.popcount(c) >= 2]
+            unknown_ids = five if rep_ % 2 == 0 else sorted(rnd.sample(five, rnd.randint(16, 22)))
+            for n in (5, 6, 7):
+                v = G.sa_game(n, rnd, kind="int", neg_singletons=(rep_ % 3 == 1))
+                K = [c for c in range(2 ** n) if c not in unknown_ids]
+                yield n, v, K, "sa-int:many-shared-unknown-ids"
     for n, cnt in ((5, 300 if tier == "quick" else 5000), (6, 40 if tier == "quick" else 500),
                    (7, 0 if tier == "quick" else 50), (2, 4)):
         for i in range(cnt):
